@@ -451,18 +451,36 @@ def line_accumulator(rep, f, g, roles, line_of, last_swap_line):
         cnd = R.strip(body[ifs[0]]["cond"])
         # accepted forms:  e >= T   and   e >= T && y != end.y  (the step is withheld once the end row is reached)
         clamp = False
+        counter = None          # (name, initialiser, declared before the transposition): the step is allowed while a count-down is positive
         if cnd.get("k") == "Binary" and cnd["op"] == "&&":
             parts = [R.strip(cnd["l"]), R.strip(cnd["r"])]
             cl = [x for x in parts if R.key(x) in (fi("({Y} != {E}.y)"), fi("({E}.y != {Y})"))]
             rest = [x for x in parts if x not in cl]
-            if len(cl) != 1 or len(rest) != 1:
-                raise K6Unknown("step condition %s" % R.key(cnd))
-            clamp, cnd = True, rest[0]
+            if len(cl) == 1 and len(rest) == 1:
+                clamp, cnd = True, rest[0]
+            else:
+                # e >= T && C > 0 with C a local that is counted down once per step: at most C0 steps are taken
+                cc = [x for x in parts if re.fullmatch(r"\((%\d+) > 0\)", R.key(x))]
+                rest = [x for x in parts if x not in cc]
+                if len(cc) != 1 or len(rest) != 1:
+                    raise K6Unknown("step condition %s" % R.key(cnd))
+                cname_ = re.fullmatch(r"\((%\d+) > 0\)", R.key(cc[0])).group(1)
+                if cname_ not in fd or fd[cname_][0].get("init") is None:
+                    raise K6Unknown("count-down %s has no initialiser" % cname_)
+                writes = [k_ for k_, _, _ in R.effects(g["body"]) if re.match(r"\((\+\+|--)?%s\b|\(%s (=|\+=|-=)" % (re.escape(cname_), re.escape(cname_)), k_)]
+                if sorted(writes) not in (["(--%s)" % cname_], ["(%s--)" % cname_], ["(%s -= 1)" % cname_]):
+                    raise K6Unknown("count-down %s is written by %s" % (cname_, writes))
+                counter = (cname_, fd[cname_][0]["init"], fd[cname_][1] <= last_swap_line)
+                clamp, cnd = True, rest[0]
         if cnd.get("k") != "Binary" or cnd["op"] != ">=" or R.key(cnd["l"]) != Rv or body[ifs[0]].get("else") is not None:
             raise K6Unknown("step condition %s" % R.key(cnd))
         T = _frac(cnd["r"])
         then = sorted(R.key(x) for x in R.strip(body[ifs[0]]["then"]).get("c", []))
         step = fi("({Y} += {J})")
+        if counter:
+            then = sorted(x for x in then if x not in ("(--%s)" % counter[0], "(%s--)" % counter[0], "(%s -= 1)" % counter[0]))
+            if len(then) != 2:
+                raise K6Unknown("the count-down is not decremented in the step")
         if then not in (sorted(["(--%s)" % Rv, step]), sorted(["(%s -= 1)" % Rv, step]), sorted(["(%s--)" % Rv, step])):
             raise K6Unknown("step body %s" % then)
         if R.key(fd[Rv][0].get("init")) not in ("0", "0.0"):
@@ -481,13 +499,29 @@ def line_accumulator(rep, f, g, roles, line_of, last_swap_line):
         det = {"threshold": str(T), "first_emitted_offset_index": first, "step withheld at the end row": clamp, "cases": {}}
         bad = []
 
-        def offset(k, N, D, av, bv):
+        # the number of steps the guard admits, as a polynomial in (a, b): b for `y != end.y`; for a count-down its initial value, read with the extents
+        # as they are at its declaration -- after the transposition W = a+1, H = b+1; before it a steep line still has W = b+1, H = a+1
+        variants = [("", None)]
+        if counter:
+            cp = R.poly_of(counter[1], rename=lambda nm: nm)
+            if not set(cp.atoms()) <= {wname, hname}:
+                raise K6Unknown("count-down starts at %s, not a polynomial in the extents" % R.key(counter[1]))
+            if counter[2]:
+                variants = [("flat lines", cp.subst({wname: a + one, hname: b + one})), ("steep lines (transposed after the count-down was set)", cp.subst({wname: b + one, hname: a + one}))]
+            else:
+                variants = [("", cp.subst({wname: a + one, hname: b + one}))]
+        det["step allowed while a count-down is positive"] = bool(counter)
+
+        def offset(k, N, D, av, bv, cap=None):
             # floor(k*N/D + 1 - T) at integers
             n, d = _ev(N, {"a": av, "b": bv}), _ev(D, {"a": av, "b": bv})
             u = math.floor(Fraction(k * n, d) + 1 - T)
+            if cap is not None:
+                return min(u, _ev(cap, {"a": av, "b": bv}))
             return min(u, bv) if clamp else u     # u is monotone in k, so withholding the step at y == end.y is min(b, u)
 
-        for cname, case in cases.items():
+        for (vname, cap), (cname0, case) in [(v_, c_) for v_ in variants for c_ in cases.items()]:
+            cname = cname0 + (", " + vname if vname else "")
             N, D = _rat(slope_init, env, case)
             if _sign(D.subst(case)) != "+":
                 N, D = -N, -D
@@ -513,16 +547,18 @@ def line_accumulator(rep, f, g, roles, line_of, last_swap_line):
             for oname, (poly, strict) in obl.items():
                 sg = _sign(poly.subst(case))
                 ok = sg == "+" if strict else sg in ("0", "+", ">=0")
-                if clamp and oname.startswith("bounding"):
+                if clamp and cap is None and oname.startswith("bounding"):
                     ok = True               # offset = min(b, .) by construction
+                if cap is not None and oname.startswith("bounding") and not ok:
+                    ok = _sign((b - cap).subst(case)) in ("0", "+", ">=0")       # offset = min(cap, .) <= b when cap <= b
                 cd[oname] = "proved" if ok else "not proved"
                 if ok:
                     continue
                 wit = None
                 for av in range(1, 41 if rep.tier == "quick" else 121):
-                    for bv in ([0] if cname == "b == 0" else range(1, av + 1)):
+                    for bv in ([0] if cname0 == "b == 0" else range(1, av + 1)):
                         for k in range(first, first + av):
-                            s = offset(k, N, D, av, bv)
+                            s = offset(k, N, D, av, bv, cap)
                             viol = (s > bv) if oname.startswith("bounding") else ((bv - s > 1) if oname.startswith("connected") and k == first + av - 1 else
                                     (abs(Fraction(s) - Fraction(k * bv, av)) > 1 if oname.startswith("one pixel") else False))
                             if viol:
